@@ -110,6 +110,49 @@ def mutate(rng, text):
     return ''.join(toks)
 
 
+def small_scope_vocabulary():
+    """one spelling of every token kind the parser distinguishes (first alias of each keyword kind, names of each
+    kind, literals, apostrophe suffixes, the hyphen, an error token, a comment, ignorable punctuation, the line break)"""
+    V = [forms[0] for kind, forms in sorted(rock.ALIASES.items())]
+    V += ['x', 'Tommy', 'Doctor', 'my', '5', '0', '"s"', "'s", "'re", '-', '_', '(c)', '?', '\n', 'true', 'give', 'lies', 'ten']
+    out = []
+    for w in V:
+        if w not in out:
+            out.append(w)
+    return out
+
+
+def small_scope_join(words, final_newline):
+    t = ''
+    for w in words:
+        if w in ("'s", "'re") or w == '\n' or not t or t.endswith('\n'):
+            t += w
+        else:
+            t += ' ' + w
+    return t + ('\n' if final_newline else '')
+
+
+def small_scope_texts(rng, exhaustive_len, sample_n, sample_len):
+    """ALL token sequences up to `exhaustive_len` over the small-scope vocabulary, each with and without a final newline,
+    plus `sample_n` random sequences of `sample_len` tokens (small-scope hypothesis: a fault in how the parser consumes
+    tokens shows on some short sequence; round 2's `rock x like<EOF>` is one of length 3)"""
+    import itertools
+    V = small_scope_vocabulary()
+    out = []
+    for L in range(1, exhaustive_len + 1):
+        for ws in itertools.product(V, repeat=L):
+            if ws[-1] == '\n':
+                out.append(small_scope_join(ws, False))
+            else:
+                out.append(small_scope_join(ws, False))
+                out.append(small_scope_join(ws, True))
+    lo, hi = sample_len
+    for _ in range(sample_n):
+        ws = [rng.choice(V) for _ in range(rng.randint(lo, hi))]
+        out.append(small_scope_join(ws, rng.random() < 0.5))
+    return out
+
+
 def token_prefixes(rng, text, limit=80):
     """every prefix of a program that ends at a token boundary, without a final newline and with a trailing
     blank / comment / ignorable punctuation (truncation at every point where the parser may run out of tokens)"""
